@@ -32,6 +32,7 @@ fn main() {
         Some("ops-scalar-op") => ops::scalar_op(&v),
         Some("ops-search") => ops::search(&v),
         Some("values-search") => values::search(&v),
+        Some("values-enum") => values::enumerate(args.get(1).and_then(|s| s.parse().ok()).unwrap_or(3), args.get(2).map(String::as_str).unwrap_or("straight")),
         Some("lines-search") => lines::search(&v),
         Some("decode-finding") => decode::finding(args.get(1).map(String::as_str).unwrap_or("")),
         Some("decode-search") => decode::search(&v),
